@@ -176,9 +176,8 @@ def run(ctx):
         "math.log2 in cost_bucket is compared on a grid only; float corner cases near 2^k for k ≥ 12 are outside the envelope",
     ]
     ctx.cov["proved"] = ["C17_membership", "C17_bucket", "C17_bucket_contains", "C17_order", "C17_rows", "C17_total", "C17_summary",
-                         "C17_summary_fresh", "C17_stdout"]
-    ctx.cov["exercised_only"] = ["non-decreasing cost across headings (C17_order_across_headings is stated, not proved)",
-                                 "rendering: slugs, line-number gutter, wrapping of long span lists"]
+                         "C17_summary_fresh", "C17_stdout", "C17_order_across", "C17_order_across_assess"]
+    ctx.cov["exercised_only"] = ["rendering: slugs, line-number gutter, wrapping of long span lists"]
     finish_tie(ctx)
     return core.finish(ctx)
 
